@@ -30,7 +30,8 @@ theorem loop_ok_last (P : Params) (qf : RepMap M → R × Bool) (x : Nat) (as : 
     | error n c =>
       simp only [loop] at h
       split at h
-      · simp at h
+      · simp only [Prod.mk.injEq] at h
+        exact absurd h.1 (exhaustedOutcome_ne_ok P _ _ _ v)
       · exact ih _ _ h
     | reply n m =>
       simp only [loop] at h
@@ -45,7 +46,8 @@ theorem loop_ok_last (P : Params) (qf : RepMap M → R × Bool) (x : Nat) (as : 
         | false =>
           simp only [Bool.false_eq_true, ↓reduceIte] at h
           split at h
-          · simp at h
+          · simp only [Prod.mk.injEq] at h
+            exact absurd h.1 (exhaustedOutcome_ne_ok P _ _ _ v)
           · cases hl : loop P qf x { st with replies := st.replies.insert n m } as with
             | mk o log' =>
               rw [hl] at h
@@ -149,7 +151,8 @@ theorem ok_is_qf_verdict (P : Params) (qf : RepMap M → R × Bool) (x : Nat) (a
     ∃ reps, log.getLast? = some reps ∧ qf reps = (v, true) := by
   unfold run at h
   split at h
-  · simp at h
+  · simp only [Prod.mk.injEq] at h
+    exact absurd h.1 (exhaustedOutcome_ne_ok P _ _ _ v)
   · exact loop_ok_last P qf x as _ v log h
 
 /-- **never again after it has reported a quorum**: every invocation but the last reported "no quorum" -/
